@@ -2214,7 +2214,7 @@ DLLIMPORT int cfg_setbool(cfg_t *cfg, const char *name, cfg_bool_t value)
 
 DLLIMPORT int cfg_opt_setnstr(cfg_opt_t *opt, const char *value, unsigned int index)
 {
-	char *newstr, *oldstr = NULL;
+	char *newstr = NULL, *oldstr = NULL;
 	cfg_value_t *val;
 
 	if (!opt || opt->type != CFGT_STR) {
@@ -2222,21 +2222,24 @@ DLLIMPORT int cfg_opt_setnstr(cfg_opt_t *opt, const char *value, unsigned int in
 		return CFG_FAIL;
 	}
 
-	val = cfg_opt_getval(opt, index);
-	if (!val)
-		return CFG_FAIL;
-
-	if (val->string)
-		oldstr = val->string;
-
+	/* Copy first: value may be the string this option holds right now,
+	 * which cfg_opt_getval() releases when it drops the default values. */
 	if (value) {
 		newstr = strdup(value);
 		if (!newstr)
 			return CFG_FAIL;
-		val->string = newstr;
-	} else {
-		val->string = NULL;
 	}
+
+	val = cfg_opt_getval(opt, index);
+	if (!val) {
+		free(newstr);
+		return CFG_FAIL;
+	}
+
+	if (val->string)
+		oldstr = val->string;
+
+	val->string = newstr;
 
 	if (oldstr)
 		free(oldstr);
